@@ -2135,7 +2135,14 @@ def docs_unconditional_rule(crate, prop, rule="C15.R5"):
             r.fail(prop, "anchor-missing %s::from_attrs" % x, "not found")
             continue
         b = cands[0]
+        def reads_docs_always(hb):
+            d = {blk for blk, t2 in hb.calls() if not hb.is_cleanup(blk) and M.fn_matches(t2, r"utils::parse_docs$")}
+            e = {blk for blk, t2 in hb.calls() if not hb.is_cleanup(blk) and M.fn_matches(t2, r"FromResidual")} | M.error_blocks(hb)
+            rs = [blk for blk in range(hb.n) if not hb.is_cleanup(blk) and hb.term(blk)["k"] == "return"]
+            return bool(d) and hb.all_paths_pass(0, d | e, rs)
         docs = {blk for blk, t in b.calls() if not b.is_cleanup(blk) and M.fn_matches(t, r"utils::parse_docs$")}
+        # a helper of the crate that reads the docs on each of its own success paths counts as reading them
+        docs |= {blk for blk, t in b.calls() if not b.is_cleanup(blk) and any(hb.kind in ("Fn", "AssocFn") and reads_docs_always(hb) for hb in crate.call_targets(b, t, ()))}
         errs = {blk for blk, t in b.calls() if not b.is_cleanup(blk) and M.fn_matches(t, r"FromResidual")}
         rets = [blk for blk in range(b.n) if not b.is_cleanup(blk) and b.term(blk)["k"] == "return"]
         ok = bool(docs) and b.all_paths_pass(0, docs | errs, rets)
